@@ -107,6 +107,21 @@ def check(ctx):
             p = ctx.call_method(I, st, o, "predict", Xv)
             ctx.compare("NF-FILTER", f"predict = X @ coef_^T [{cfg}]", N, p, T("matmul", Xv.term, T("T", ctx.attr(st, o, "coef_").term)), ctx.site(P.method(cls, "predict")), cfg)
             ctx.no_shape_conflicts("Shape", f"predict on new data [{cfg}]", I, lo, ctx.site(P.method(cls, "predict")), cfg)
+    # default scorer
+    I = ctx.interp(assume=protocols.assume_default, call_hook=protocols.fold_hook)
+    st = State()
+    o = ctx.construct(I, st, cls, alphas=arr("alphas", "G"))
+    ctx.call_method(I, st, o, "fit", arr("X", "N", "M"), arr("y", "N", "P"))
+    calls = [e for e in I.events if e["kind"] == "scorer-call"]
+    ok = bool(calls) and all(e["scorer"].extra is not None and e["scorer"].extra.has_const and e["scorer"].extra.const == "neg_mean_squared_error" for e in calls)
+    ctx.ob("R-FOLDS", "scoring=None falls back to the (rotation invariant) negative mean squared error", ok, f"{[repr(e['scorer'].term) for e in calls[:1]]}", ctx.site(P.method(cls, "fit")))
+    I = ctx.interp(assume=protocols.assume_default, call_hook=protocols.fold_hook)
+    st = State()
+    o = ctx.construct(I, st, cls, alphas=arr("alphas", "G"), scoring="r2")
+    ctx.call_method(I, st, o, "fit", arr("X", "N", "M"), arr("y", "N", "P"))
+    calls = [e for e in I.events if e["kind"] == "scorer-call"]
+    ok = bool(calls) and all(e["scorer"].extra is not None and e["scorer"].extra.has_const and e["scorer"].extra.const == "r2" for e in calls)
+    ctx.ob("R-FOLDS", "a user-supplied scoring is the one that is used", ok, f"{[repr(e['scorer'].term) for e in calls[:1]]}", ctx.site(P.method(cls, "fit")))
     # user supplied cv
     seen = {}
 
